@@ -121,10 +121,12 @@ def make_env(S, runner_file, script, status, cap, observe):
         def __exit__(self, *a):
             return False
 
-        def readline(self):
+        def readline(self, size=-1):
             while True:
                 if '\n' in pipe.pending:
                     i = pipe.pending.index('\n')
+                    if size is not None and 0 <= size < i + 1:
+                        i = size - 1
                     l, pipe.pending = pipe.pending[:i + 1], pipe.pending[i + 1:]
                     return l
                 S.point(me(), blocked=lambda: bool(pipe.buf) or pipe.wclosed)
